@@ -753,9 +753,20 @@ struct BigStream {
     script: Vec<usize>,
     calls: usize,
     cap: usize,
+    /// the call with this index (0-based) fails with EIO instead of moving anything
+    fail_at: Option<usize>,
+    failed: bool,
 }
 
 impl BigStream {
+    fn refuse(&mut self) -> bool {
+        if self.fail_at == Some(self.calls) {
+            self.calls += 1;
+            self.failed = true;
+            return true;
+        }
+        false
+    }
     fn quota(&mut self, want: usize) -> usize {
         let q = self.script.get(self.calls).copied().unwrap_or(self.cap);
         self.calls += 1;
@@ -765,6 +776,9 @@ impl BigStream {
 
 impl ReadVolatile for BigStream {
     fn read_volatile<B: BitmapSlice>(&mut self, buf: &mut VolatileSlice<B>) -> Result<usize, VolatileMemoryError> {
+        if self.refuse() {
+            return Err(VolatileMemoryError::IOError(std::io::Error::from_raw_os_error(libc::EIO)));
+        }
         let n = self.quota(buf.len()).min(self.data.len() - self.pos);
         if n > 0 {
             buf.write_slice(&self.data[self.pos..self.pos + n], 0)?;
@@ -776,6 +790,9 @@ impl ReadVolatile for BigStream {
 
 impl WriteVolatile for BigStream {
     fn write_volatile<B: BitmapSlice>(&mut self, buf: &VolatileSlice<B>) -> Result<usize, VolatileMemoryError> {
+        if self.refuse() {
+            return Err(VolatileMemoryError::IOError(std::io::Error::from_raw_os_error(libc::EIO)));
+        }
         let n = self.quota(buf.len());
         let mut tmp = vec![0u8; n];
         if n > 0 {
@@ -796,6 +813,8 @@ fn large_transfers(ctx: &Ctx, thorough: bool) -> u64 {
     let region = GuestRegionMmap::<()>::from_range(GuestAddress(0x10_0000), total, None).unwrap();
     let memory = GuestMemoryMmap::<()>::from_ranges(&[(GuestAddress(0x10_0000), 2 * M + 3), (GuestAddress(0x10_0000 + 2 * M as u64 + 3), total - 2 * M - 3)]).unwrap();
     let pattern = |salt: u8, n: usize| -> Vec<u8> { (0..n).map(|i| ((i as u32).wrapping_mul(2654435761) >> 24) as u8 ^ salt).collect() };
+    // (the third component: the index of the stream call that fails with EIO, if any)
+    let fail_scripts: Vec<(Vec<usize>, usize, Option<usize>)> = vec![(vec![], usize::MAX, Some(1)), (vec![2048], usize::MAX, Some(1)), (vec![5000, 5000], usize::MAX, Some(2)), (vec![], 700_001, Some(3)), (vec![], usize::MAX, Some(0))];
     let mut scripts: Vec<(Vec<usize>, usize)> = vec![(vec![], usize::MAX), (vec![1], usize::MAX), (vec![M - 1], usize::MAX), (vec![M], usize::MAX), (vec![M + 1], usize::MAX), (vec![2 * M + 5], usize::MAX), (vec![], 700_001)];
     if thorough {
         scripts.extend([(vec![M, 1], usize::MAX), (vec![M + 1, M - 1], usize::MAX), (vec![], M), (vec![], M + 1), (vec![5, 5, 5], 1 << 19)]);
@@ -804,7 +823,8 @@ fn large_transfers(ctx: &Ctx, thorough: bool) -> u64 {
     for level in 0..3usize {
         for form in [Form::ReadUpTo, Form::ReadExact, Form::WriteUpTo, Form::WriteAll] {
             for (off, count) in [(0usize, total), (3, 2 * M + 7), (M - 1, M + 2)] {
-                for (script, cap) in &scripts {
+                let all_scripts: Vec<(Vec<usize>, usize, Option<usize>)> = scripts.iter().map(|(a, b)| (a.clone(), *b, None)).chain(fail_scripts.iter().cloned()).collect();
+                for (script, cap, fail_at) in &all_scripts {
                     t += 1;
                     ctx.case(true);
                     // fill guest memory with a pattern
@@ -834,7 +854,7 @@ fn large_transfers(ctx: &Ctx, thorough: bool) -> u64 {
                     };
                     set(&fill);
                     let reading = matches!(form, Form::ReadUpTo | Form::ReadExact);
-                    let mut s = BigStream { data: if reading { pattern(0xa7, count + 64) } else { Vec::new() }, pos: 0, script: script.clone(), calls: 0, cap: *cap };
+                    let mut s = BigStream { data: if reading { pattern(0xa7, count + 64) } else { Vec::new() }, pos: 0, script: script.clone(), calls: 0, cap: *cap, fail_at: *fail_at, failed: false };
                     let res: Res = match level {
                         0 => {
                             let vs = region.as_volatile_slice().unwrap();
@@ -861,6 +881,29 @@ fn large_transfers(ctx: &Ctx, thorough: bool) -> u64 {
                     };
                     let after = get();
                     let mut bad: Option<(&str, String)> = None;
+                    if fail_at.is_some() {
+                        // a stream call that failed: the error surfaces, and what arrived before it
+                        // is in place, in order, nothing else changed
+                        if s.failed && res.is_ok() {
+                            bad = Some(("error-swallowed", format!("the stream's call {} failed with EIO, the transfer returned {:?}", fail_at.unwrap(), res)));
+                        } else if reading {
+                            let mut want = fill.clone();
+                            want[off..off + s.pos].copy_from_slice(&s.data[..s.pos]);
+                            if after != want {
+                                let i = (0..total).find(|i| after[*i] != want[*i]).unwrap();
+                                bad = Some(("memory-after-error", format!("{} bytes were delivered before the error; guest byte {:#x} is {:#04x}, expected {:#04x}", s.pos, i, after[i], want[i])));
+                            }
+                        } else if after != fill || s.data.len() > count || s.data[..] != fill[off..off + s.data.len()] {
+                            bad = Some(("sink-after-error", format!("the sink holds {} bytes that are not the guest's bytes in order, or guest memory changed", s.data.len())));
+                        }
+                        if let Some((k, d)) = bad {
+                            let lv = ["slice", "region", "guest memory (two regions)"][level];
+                            let key = format!("C14/large-transfer/{}/{}/{}", lv, form.name(), k);
+                            let rp = if ctx.has_failed(&key) { Value::Null } else { json!({"level": lv, "form": form.name(), "offset": off, "count": count, "short_calls": script, "failing_call": fail_at}) };
+                            ctx.fail(&key, &format!("{} bytes at {:#x}, short calls {:?}, call {:?} fails: {}", count, off, script, fail_at, d), rp);
+                        }
+                        continue;
+                    }
                     let n = match &res {
                         Ok(Some(n)) => Some(*n),
                         Ok(None) => Some(count),
@@ -903,7 +946,7 @@ fn large_transfers(ctx: &Ctx, thorough: bool) -> u64 {
 
 pub fn run(tier: Tier, replay: Option<String>) -> i32 {
     let ctx = crate::new_ctx("C14", tier, "fault_enumeration", &replay);
-    ctx.set_rule("choice-tree DFS: every call the transfer makes to the underlying stream is a choice among full / short by k / zero / EINTR (<=3 in a row) / hard error of four kinds (other, WouldBlock, BrokenPipe, TimedOut); scripts of up to max_calls scripted calls, at most `bound` non-default answers per script (all bounds 0..=B enumerated completely); streams: a scripted ReadVolatile/WriteVolatile and the real File adapter over interposed read(2)/write(2); targets: slice, region, guest memory with two adjacent regions, a hole and a third region behind it (ranges may end in the hole or behind it); a case is non-trivial when its script contains at least one non-default answer; distinct = distinct (case, script) pairs, by construction of the DFS; plus, for every case, runs of 4, 33, 64 and 1000 EINTR answers in a row (alone and after a one-byte transfer) followed by default answers; plus transfers of 1 MiB+2 .. 3 MiB+4101 bytes in one call at slice, region and two-region guest-memory level, all four forms, with short calls of 1, 2^20-1, 2^20, 2^20+1 and 2^21+5 bytes and with streams capped at 700001 bytes per call");
+    ctx.set_rule("choice-tree DFS: every call the transfer makes to the underlying stream is a choice among full / short by k / zero / EINTR (<=3 in a row) / hard error of four kinds (other, WouldBlock, BrokenPipe, TimedOut); scripts of up to max_calls scripted calls, at most `bound` non-default answers per script (all bounds 0..=B enumerated completely); streams: a scripted ReadVolatile/WriteVolatile and the real File adapter over interposed read(2)/write(2); targets: slice, region, guest memory with two adjacent regions, a hole and a third region behind it (ranges may end in the hole or behind it); a case is non-trivial when its script contains at least one non-default answer; distinct = distinct (case, script) pairs, by construction of the DFS; plus, for every case, runs of 4, 33, 64 and 1000 EINTR answers in a row (alone and after a one-byte transfer) followed by default answers; plus transfers of 1 MiB+2 .. 3 MiB+4101 bytes in one call at slice, region and two-region guest-memory level, all four forms, with short calls of 1, 2^20-1, 2^20, 2^20+1 and 2^21+5 bytes and with streams capped at 700001 bytes per call, and with the first, second, third or fourth stream call failing (the error surfaces, what arrived before it is in place)");
     ctx.assume("the scripted stream and the interposed syscalls deliver exactly what the script says");
     if let Err(e) = crate::interpose::selftest() {
         ctx.machinery(&format!("interposition self-test failed: {}", e));
